@@ -29,6 +29,10 @@ newline_re = re.compile(r"(\r\n|\r|\n)")
 string_re = re.compile(
     r"('([^'\\]*(?:\\.[^'\\]*)*)'" r'|"([^"\\]*(?:\\.[^"\\]*)*)")', re.S
 )
+# an unescaped backslash in front of a non-ASCII character: it has to be doubled before
+# ``encode("ascii", "backslashreplace")`` turns that character into an escape sequence
+# of its own, otherwise the two would pair up into an escaped backslash
+_backslash_non_ascii_re = re.compile(r"(?<!\\)((?:\\\\)*)\\(?=[^\x00-\x7f])")
 integer_re = re.compile(
     r"""
     (
@@ -649,7 +653,9 @@ class Lexer:
                 # try to unescape string
                 try:
                     value = (
-                        self._normalize_newlines(value_str[1:-1])
+                        _backslash_non_ascii_re.sub(
+                            r"\1\\\\", self._normalize_newlines(value_str[1:-1])
+                        )
                         .encode("ascii", "backslashreplace")
                         .decode("unicode-escape")
                     )
